@@ -23,6 +23,7 @@ class Contract:
         self.repair = _unwrap(d.get("repair", None))
         self.make_result = _unwrap(d.get("make_result", None))
         self.make_raised = _unwrap(d.get("make_raised", None))
+        self.outcomes = _unwrap(d.get("outcomes", None))
         self.requires = _unwrap(d.get("requires", None))
         self.props = d.get("props", ())
         self.ensures = [(n, _unwrap(f)) for n, f in d.items()
